@@ -20,7 +20,11 @@ RULE = ("per case: rule set spot|futures, 1-3 instruments on one connection; per
         "included; 40 %: 2-4 connections with `reconnect` also before the first connection, after a failed `start` (25 % of the connections), right after `start`, after "
         "a `msg` (the `end` observation left out, 30 %) and twice in a row; 25 % of these cases have depth-limited snapshots. The corpus (corpus/C06/domain_edges.ops) "
         "holds hand-written inputs of the same classes incl. ids equal to 2^64-1, snapshot id 0 with the first message exactly at the boundary for both rule sets, a "
-        "connection without instruments, and `msg` / `end` while no connection is up (rejected as `bad-op` by harness, model and spec alike). Every snapshot and message is JSON parsed by the real "
+        "connection without instruments, and `msg` / `end` while no connection is up (rejected as `bad-op` by harness, model and spec alike). On top of these, N/10 cases (ids cfg…, "
+        "configuration-shape audit) from a fourth independent random stream have 4 / 5 / 7 / 11 / 12 instruments on the connection (symbols that are prefixes of one another: SYM1 / SYM10 / "
+        "SYM11), venues of <= 12 changes, each instrument subscribed-but-silent on a connection with probability 1/2, 12 % messages for a never-subscribed symbol of which 70 % extend a "
+        "subscribed one (SYM3 subscribed, SYM30 / SYM300 not), 30 % with `reconnect` at every position, 25 % depth-limited (corpus/C06/cfg_many_instruments.ops: 12 instruments with the "
+        "break on the last, 11 with the break on a middle one and re-initialisation, 4 all silent). Every snapshot and message is JSON parsed by the real "
         "serde types, the transformer is built by the real ExchangeTransformer::init, every message goes through the real Transformer::transform (and a "
         "stand-alone real *Sequencer::validate_sequence whose public fields are printed), delivered events through the real OrderBook::update, and the whole "
         "output list through the real with_termination_on_error(|e| e.is_terminal()). thorough additionally enumerates, for both rule sets, every sequence of "
